@@ -47,7 +47,7 @@ def run_one(model, backend: str, src: str, md):
     try:
         a = impl.query_ast(src, md)
     except Exception as e:  # noqa: BLE001
-        return {"stage": "frontend", "impl": "error", "cls": type(e).__name__, "model": None}
+        return {"stage": "frontend", "impl": "error", "cls": type(e).__name__, "model": None, "mcls": ""}
     r = impl.translate(backend, a, want_ast=True)
     ki = dict(impl.LAST_KIND_INPUT)
     impl.reset_globals()
@@ -57,6 +57,48 @@ def run_one(model, backend: str, src: str, md):
         out["model"] = mr[0]
         out["mcls"] = mr[1] if mr[0] == "error" else ""
     return out
+
+
+def reuse_scenarios(be: str):
+    """(label, metadata of the first query, source of the second query)"""
+    fn = {"metadata_type": "add_cpp_function", "name": "MyScale", "include_files": [], "arguments": ["x"], "code": ["auto result = x * 2.0;"],
+          "result_name": "result", "return_type": "double"}
+    coll_md = {
+        "atlas": {"metadata_type": "add_atlas_event_collection_info", "name": "ForkJets", "include_files": ["xAODJet/JetContainer.h"],
+                  "container_type": "xAOD::JetContainer", "element_type": "xAOD::Jet", "contains_collection": True, "link_libraries": ["xAODJet"]},
+        "cms_aod": {"metadata_type": "add_cms_aod_event_collection_info", "name": "ForkMuons", "include_files": ["DataFormats/MuonReco/interface/Muon.h"],
+                    "container_type": "reco::MuonCollection", "element_type": "reco::Muon", "contains_collection": True, "element_pointer": False},
+        "cms_miniaod": {"metadata_type": "add_cms_miniaod_event_collection_info", "name": "ForkMuons", "include_files": ["DataFormats/PatCandidates/interface/Muon.h"],
+                        "container_type": "pat::MuonCollection", "element_type": "pat::Muon", "contains_collection": True, "element_pointer": False},
+    }[be]
+    main = {"atlas": "Jets", "cms_aod": "Muons", "cms_miniaod": "Muons"}[be]
+    yield "MyScale", [fn], f'ds.Select(lambda e: e.{main}("b1").Select(lambda j: MyScale(j.pt())))'
+    yield coll_md["name"], [coll_md], f'ds.Select(lambda e: e.{coll_md["name"]}("b1").Count())'
+
+
+def run_reuse(be: str, md1, q2: str, first_ok: bool):
+    """Translate a first query carrying `md1` (valid, or refused because of a trailing unsupported construct), then `q2`
+    on the SAME executor object; and `q2` on a fresh executor."""
+    import tempfile
+    from pathlib import Path
+
+    def tr(exe, a):
+        try:
+            with tempfile.TemporaryDirectory(prefix="fv-c09-") as d:
+                exe.write_cpp_files(exe.apply_ast_transformations(a), Path(d))
+            return "ok"
+        except Exception:  # noqa: BLE001
+            return "error"
+        finally:
+            impl.reset_globals()
+
+    main = {"atlas": "Jets", "cms_aod": "Muons", "cms_miniaod": "Muons"}[be]
+    q1 = f'ds.Select(lambda e: e.{main}("b1").Count())' if first_ok else f'ds.Select(lambda e: e.{main}("b1").Count() // 2)'
+    exe = impl.executors()[be]()
+    first = tr(exe, impl.query_ast(q1, md1))
+    second = tr(exe, impl.query_ast(q2, None))
+    fresh = tr(impl.executors()[be](), impl.query_ast(q2, None))
+    return {"first": first, "second": second, "fresh": fresh}
 
 
 def shrink_src(backend, md, src: str, still_bad) -> str:
@@ -130,6 +172,26 @@ def check(tier: str, seed: int, t0: float, build: core.BuildStatus) -> int:
                         oc.traces_validated_against_impl += 1
                         if r["cls"] != r["mcls"]:
                             class_mismatch += 1
+    # ---- a name that only an EARLIER query declared is still unknown: on a reused executor object the second query
+    #      (which uses the name without declaring it) must be refused, exactly as on a fresh executor
+    for be in BACKENDS:
+        for label, md1, q2 in reuse_scenarios(be):
+            for first_ok in (True, False):
+                got = run_reuse(be, md1, q2, first_ok)
+                oc.evaluations += 1
+                hist["graft"][f"reuse:{label}:{got['second']}"] += 1
+                distinct.add((be, "reuse:" + label + str(first_ok)))
+                if got["second"] == "ok":
+                    oc.violations.append(core.Violation(
+                        key="c09:accepted-undeclared-after-reuse",
+                        what=f"{be}: on a reused executor a query that uses '{label}' WITHOUT declaring it is translated (the declaration came with an earlier {'successful' if first_ok else 'refused'} query): {q2}",
+                        replay={"kind": "reuse", "backend": be, "first_metadata": md1, "first_query_ok": first_ok, "second_query": q2,
+                                "fresh_executor": got["fresh"], "reused_executor": got["second"],
+                                "broken": "property oracle: an unknown function / collection makes translation raise, whatever earlier queries declared"}))
+                elif got["fresh"] != "error":
+                    oc.correspondence_breaks.append({"backend": be, "reuse": label, "note": "the undeclared use is accepted even on a fresh executor", "got": got})
+                else:
+                    oc.traces_validated_against_impl += 1
     if model is not None:
         model.close()
     oc.distinct_nontrivial = len(distinct)
